@@ -161,4 +161,128 @@ theorem run_error_no_store (sys : Sys P) (hid : ∀ v p, sys.ckey v p = p) (n : 
                 exact ih
               · simp only [Option.some.injEq, Prod.mk.injEq] at h; obtain ⟨h1, _, _⟩ := h; cases h1
 
+/-! ## variable-ranked systems, any storage key (eternal variables included): a run only writes
+    slots of variables of rank at most its own -/
+
+theorem lookup_store_var_ne (sys : Sys P) (c : Cache P) (k k' : Node P) (x : Val) (g : Bool) (h : k'.1 ≠ k.1) :
+    lookup (store sys c k' x g) k = lookup c k :=
+  lookup_store_ne sys c k k' x g (fun e => h (e ▸ rfl))
+
+mutual
+theorem run_touches_ranked (sys : Sys P) (rk : Nat → Nat) (hr : VarRanked sys rk) :
+    ∀ n s v p r g s', run sys n s v p = some (r, g, s') →
+    ∀ k : Node P, rk v < rk k.1 → lookup s'.cache k = lookup s.cache k
+  | 0, _, _, _, _, _, _, h => by simp [run] at h
+  | n+1, s, v, p, r, g, s', h => by
+    intro k hk
+    have hne : (sys.slot (v, p)).1 ≠ k.1 := by
+      intro e; simp only [Sys.slot] at e; rw [e] at hk; exact Nat.lt_irrefl _ hk
+    unfold run at h
+    split at h
+    · simp only [Option.some.injEq, Prod.mk.injEq] at h
+      obtain ⟨_, _, rfl⟩ := h
+      split <;> rfl
+    · split at h
+      · simp only [Option.some.injEq, Prod.mk.injEq] at h; obtain ⟨_, _, rfl⟩ := h; rfl
+      · split at h
+        · simp only [Option.some.injEq, Prod.mk.injEq] at h; obtain ⟨_, _, rfl⟩ := h; rfl
+        · split at h
+          · simp only [Option.some.injEq, Prod.mk.injEq] at h; obtain ⟨_, _, rfl⟩ := h; rfl
+          · split at h
+            · simp only [Option.some.injEq, Prod.mk.injEq] at h; obtain ⟨_, _, rfl⟩ := h
+              exact lookup_store_var_ne sys _ _ _ _ _ hne
+            · rename_i e hf
+              have hrefs : ∀ k' ∈ refs e, rk k'.1 < rk k.1 := fun k' hk' => Nat.lt_trans (hr v p e hf k' hk') hk
+              split at h
+              · cases h
+              · rename_i er g1 s1 hrun
+                have ih := runE_touches_ranked sys rk hr n _ _ _ _ _ hrun k hrefs
+                simp only [Option.some.injEq, Prod.mk.injEq] at h; obtain ⟨_, _, rfl⟩ := h
+                exact ih
+              · rename_i x g1 s1 hrun
+                have ih := runE_touches_ranked sys rk hr n _ _ _ _ _ hrun k hrefs
+                simp only [Option.some.injEq, Prod.mk.injEq] at h; obtain ⟨_, _, rfl⟩ := h
+                simp only
+                rw [lookup_store_var_ne sys _ _ _ _ _ hne]; exact ih
+theorem runE_touches_ranked (sys : Sys P) (rk : Nat → Nat) (hr : VarRanked sys rk) :
+    ∀ n s e r g s', runE sys n s e = some (r, g, s') →
+    ∀ k : Node P, (∀ k' ∈ refs e, rk k'.1 < rk k.1) → lookup s'.cache k = lookup s.cache k
+  | _, s, .const c, r, g, s', h => by
+    simp only [runE, Option.some.injEq, Prod.mk.injEq] at h; obtain ⟨_, _, rfl⟩ := h; intro k hk; rfl
+  | _, s, .bad, r, g, s', h => by
+    simp only [runE, Option.some.injEq, Prod.mk.injEq] at h; obtain ⟨_, _, rfl⟩ := h; intro k hk; rfl
+  | n, s, .ref v p, r, g, s', h => by
+    simp only [runE] at h
+    intro k hk
+    exact run_touches_ranked sys rk hr n s v p r g s' h k (hk (v, p) (by simp [refs]))
+  | n, s, .fail id a, r, g, s', h => by
+    simp only [runE] at h
+    split at h
+    · simp only [Option.some.injEq, Prod.mk.injEq] at h; obtain ⟨_, _, rfl⟩ := h; intro k hk; rfl
+    · intro k hk
+      exact runE_touches_ranked sys rk hr n s a r g s' h k (by simpa [refs] using hk)
+  | n, s, .op1 o a, r, g, s', h => by
+    simp only [runE] at h
+    intro k hk
+    have hka : ∀ k' ∈ refs a, rk k'.1 < rk k.1 := by simpa [refs] using hk
+    split at h
+    · cases h
+    · rename_i e g1 s1 ha
+      simp only [Option.some.injEq, Prod.mk.injEq] at h; obtain ⟨_, _, rfl⟩ := h
+      exact runE_touches_ranked sys rk hr n s a _ _ _ ha k hka
+    · rename_i x g1 s1 ha
+      simp only [Option.some.injEq, Prod.mk.injEq] at h; obtain ⟨_, _, rfl⟩ := h
+      exact runE_touches_ranked sys rk hr n s a _ _ _ ha k hka
+  | n, s, .op2 o a b, r, g, s', h => by
+    simp only [runE] at h
+    intro k hk
+    have hka : ∀ k' ∈ refs a, rk k'.1 < rk k.1 := fun k' hk' => hk k' (by simp [refs, hk'])
+    have hkb : ∀ k' ∈ refs b, rk k'.1 < rk k.1 := fun k' hk' => hk k' (by simp [refs, hk'])
+    split at h
+    · cases h
+    · rename_i e g1 s1 ha
+      simp only [Option.some.injEq, Prod.mk.injEq] at h; obtain ⟨_, _, rfl⟩ := h
+      exact runE_touches_ranked sys rk hr n s a _ _ _ ha k hka
+    · rename_i x g1 s1 ha
+      have h1 := runE_touches_ranked sys rk hr n s a _ _ _ ha k hka
+      split at h
+      · cases h
+      · rename_i e g2 s2 hb
+        simp only [Option.some.injEq, Prod.mk.injEq] at h; obtain ⟨_, _, rfl⟩ := h
+        rw [runE_touches_ranked sys rk hr n s1 b _ _ _ hb k hkb, h1]
+      · rename_i y g2 s2 hb
+        simp only [Option.some.injEq, Prod.mk.injEq] at h; obtain ⟨_, _, rfl⟩ := h
+        rw [runE_touches_ranked sys rk hr n s1 b _ _ _ hb k hkb, h1]
+end
+
+/-- no value is recorded under the storage slot of a node whose computation did not complete —
+    variable-ranked systems, any storage key -/
+theorem run_error_no_store_ranked (sys : Sys P) (rk : Nat → Nat) (hr : VarRanked sys rk) (n : Nat) (s : St P)
+    (v : Nat) (p : P) (er : Err) (g : Bool) (s' : St P)
+    (h : run sys n s v p = some (.error er, g, s')) :
+    lookup s'.cache (sys.slot (v, p)) = lookup s.cache (sys.slot (v, p)) := by
+  cases n with
+  | zero => simp [run] at h
+  | succ n =>
+    unfold run at h
+    split at h
+    · simp only [Option.some.injEq, Prod.mk.injEq] at h; obtain ⟨h1, _, _⟩ := h; cases h1
+    · split at h
+      · simp only [Option.some.injEq, Prod.mk.injEq] at h; obtain ⟨h1, _, _⟩ := h; cases h1
+      · split at h
+        · simp only [Option.some.injEq, Prod.mk.injEq] at h; obtain ⟨_, _, rfl⟩ := h; rfl
+        · split at h
+          · simp only [Option.some.injEq, Prod.mk.injEq] at h; obtain ⟨h1, _, _⟩ := h; cases h1
+          · split at h
+            · simp only [Option.some.injEq, Prod.mk.injEq] at h; obtain ⟨h1, _, _⟩ := h; cases h1
+            · rename_i e hf
+              split at h
+              · cases h
+              · rename_i er' g1 s1 hrun
+                have ih := runE_touches_ranked sys rk hr n _ _ _ _ _ hrun (sys.slot (v, p))
+                  (fun k' hk' => by simpa [Sys.slot] using hr v p e hf k' hk')
+                simp only [Option.some.injEq, Prod.mk.injEq] at h; obtain ⟨_, _, rfl⟩ := h
+                exact ih
+              · simp only [Option.some.injEq, Prod.mk.injEq] at h; obtain ⟨h1, _, _⟩ := h; cases h1
+
 end OFCore.Engine
